@@ -40,7 +40,8 @@ impl Rng {
         if n == 0 { 0 } else { self.u64() % n }
     }
     pub fn range(&mut self, lo: u64, hi_incl: u64) -> u64 {
-        lo + self.below(hi_incl - lo + 1)
+        let span = hi_incl.wrapping_sub(lo).wrapping_add(1);
+        if span == 0 { self.u64() } else { lo + self.below(span) }
     }
     pub fn bool(&mut self) -> bool {
         self.u64() & 1 == 1
@@ -249,9 +250,16 @@ pub fn list<T: std::fmt::Display>(xs: &[T]) -> String {
     s
 }
 
+thread_local! {
+    static IN_CATCH: std::cell::Cell<bool> = const { std::cell::Cell::new(false) };
+}
+
 /// run `f`, mapping a panic to `Err(message)`
 pub fn catch<T>(f: impl FnOnce() -> T + std::panic::UnwindSafe) -> Result<T, String> {
-    match std::panic::catch_unwind(f) {
+    let prev = IN_CATCH.with(|c| c.replace(true));
+    let r = std::panic::catch_unwind(f);
+    IN_CATCH.with(|c| c.set(prev));
+    match r {
         Ok(v) => Ok(v),
         Err(e) => Err(if let Some(s) = e.downcast_ref::<&str>() {
             s.to_string()
@@ -263,6 +271,12 @@ pub fn catch<T>(f: impl FnOnce() -> T + std::panic::UnwindSafe) -> Result<T, Str
     }
 }
 
+/// silence the panic message of panics that `catch` turns into outcomes; other panics still print
 pub fn quiet_panics() {
-    std::panic::set_hook(Box::new(|_| {}));
+    let default = std::panic::take_hook();
+    std::panic::set_hook(Box::new(move |info| {
+        if !IN_CATCH.with(|c| c.get()) {
+            default(info);
+        }
+    }));
 }
